@@ -27,7 +27,8 @@ ASSUMPTIONS = [
 REQUIRED_CLASSES = ["nontrivial", "inside", "above", "below", "on_upper", "on_lower", "degenerate_range",
                     "at_upper_plus_tol", "at_lower_minus_tol", "within_tol", "beyond_tol", "tol_zero",
                     "large_bound_small_tol", "ulp_outside", "int_value", "pib_default_tol", "pib_inside",
-                    "pib_outside", "pib_xmin_ne_ymin", "inexact_sum"]
+                    "pib_outside", "pib_xmin_ne_ymin", "inexact_sum", "int_beyond_2^53",
+                    "pib_bounds_object_reused"]
 QUICK_SHARDS = 4
 
 plot_utils = sut.load("plot_utils")
@@ -40,9 +41,10 @@ def ulp(x):
 def tol_flag(value, lo, hi, tol):
     """Exact three-valued oracle for the tolerant flag: True / False / None (don't care)."""
     v, l, h, t = F(value), F(lo), F(hi), F(tol)
+    all_ints = all(isinstance(x, int) and not isinstance(x, bool) for x in (value, lo, hi, tol))
     for bound_sum, fsum, outside in ((h + t, float(hi) + float(tol), v > h + t),
                                      (l - t, float(lo) - float(tol), v < l - t)):
-        exact_repr = F(fsum) == bound_sum
+        exact_repr = all_ints or F(fsum) == bound_sum      # integer arithmetic is exact at any magnitude
         if not exact_repr and abs(v - bound_sum) <= 2 * F(ulp(fsum)):
             return None
         if outside:
@@ -88,8 +90,11 @@ def body(ctx, case):
         classes.add("int_value")
     if max(abs(l), abs(h)) >= 1024 and t <= max(abs(l), abs(h)) / 10 ** 9:
         classes.add("large_bound_small_tol")
-    if F(float(hi) + float(tol)) != h + t or F(float(lo) - float(tol)) != l - t:
+    if not all(isinstance(x, int) for x in (value, lo, hi, tol)) and \
+            (F(float(hi) + float(tol)) != h + t or F(float(lo) - float(tol)) != l - t):
         classes.add("inexact_sum")
+    if any(isinstance(x, int) and abs(x) > 2 ** 53 for x in (value, lo, hi)):
+        classes.add("int_beyond_2^53")
     ctx.record(case, classes, nontrivial=outside or v == h or v == l)
     want = clamp_expect(value, lo, hi)
     args = "(%r, %r, %r" % (value, lo, hi)
@@ -142,6 +147,24 @@ def body2d(ctx, case):
     if want is not None and got is not want:
         ctx.fail("point_in_bounds(%r, %r%s) = %r, expected %r: the tolerant checker flags x: %r, y: %r"
                  % (point, bounds, "" if tol is None else ", %r" % tol, got, want, fx, fy), case)
+    # the caller changes the SAME bounds object in place and asks again (same tolerance): the answer must follow
+    # the new contents, not whatever was derived from the old ones
+    if case.get("then"):
+        nx, ny = case["then"]["p"]
+        (nx_min, ny_min), (nx_max, ny_max) = case["then"]["b"]
+        bounds[0][0], bounds[0][1], bounds[1][0], bounds[1][1] = nx_min, ny_min, nx_max, ny_max
+        fx2 = tol_flag(nx, nx_min, nx_max, eff_tol)
+        fy2 = tol_flag(ny, ny_min, ny_max, eff_tol)
+        want2 = False if (fx2 is True or fy2 is True) else (None if (fx2 is None or fy2 is None) else True)
+        ctx.count("bounds_object_reused")
+        if tol is None:
+            got2 = call_sut(plot_utils.point_in_bounds, [nx, ny], bounds)
+        else:
+            got2 = call_sut(plot_utils.point_in_bounds, [nx, ny], bounds, tol)
+        if want2 is not None and got2 is not want2:
+            ctx.fail("point_in_bounds(%r, %r%s) = %r, expected %r (the same bounds list held %r at the previous "
+                     "call and was updated in place)" % ([nx, ny], bounds, "" if tol is None else ", %r" % tol, got2,
+                                                         want2, case["b"]), case)
     # differential against the tolerant checker itself, outside the don't-care band
     if want is not None:
         cx = call_sut(plot_utils.checkLimitsTol, x, x_min, x_max, eff_tol)[1]
@@ -170,6 +193,12 @@ def scalar_cases(draw):
         tol = draw(st.sampled_from([0, 0.5, 1.0, 1.5, 3.0]))
         value = draw(st.sampled_from(HALF + [-10.0, 10.0, hi + tol, lo - tol, hi + tol + 0.5, lo - tol - 0.5]))
         return {"v": value, "lo": lo, "hi": hi, "tol": tol, "tags": ["lattice"]}
+    if kind == "ints" and draw(st.integers(0, 3)) == 0:
+        # exact integers beyond 2^53 (not representable as floats): still "the value itself" / the nearer bound
+        base = draw(st.sampled_from([2 ** 53, 2 ** 60, 10 ** 18, -2 ** 53, -10 ** 18]))
+        lo, hi = sorted([base + draw(st.integers(-9, 9)), base + draw(st.integers(-9, 9))])
+        value = base + draw(st.integers(-12, 12))
+        return {"v": value, "lo": lo, "hi": hi, "tol": draw(st.sampled_from([0, 1, 2])), "tags": ["ints", "big_ints"]}
     if kind == "ints":
         lo, hi = sorted([draw(st.integers(-1000, 1000)), draw(st.integers(-1000, 1000))])
         tol = draw(st.sampled_from([0, 1, 2, 10, 0.5]))
@@ -246,8 +275,14 @@ def point_cases(draw):
             cx = c
         else:
             cy = c
-    return {"p": [cx["v"], cy["v"]], "b": [[cx["lo"], cy["lo"]], [cx["hi"], cy["hi"]]], "tol": tol,
+    case = {"p": [cx["v"], cy["v"]], "b": [[cx["lo"], cy["lo"]], [cx["hi"], cy["hi"]]], "tol": tol,
             "tags": sorted(set(cx["tags"]) | set(cy["tags"]))}
+    if draw(st.integers(0, 2)) == 0:
+        ox, oy = draw(scalar_cases()), draw(scalar_cases())
+        case["then"] = {"p": [draw(st.sampled_from([cx["v"], ox["v"]])), draw(st.sampled_from([cy["v"], oy["v"]]))],
+                        "b": [[ox["lo"], oy["lo"]], [ox["hi"], oy["hi"]]]}
+        case["tags"] = sorted(set(case["tags"]) | {"pib_bounds_object_reused"})
+    return case
 
 
 def lattice():
@@ -262,6 +297,10 @@ RANGES = [(-1.0, 2.0), (0.0, 0.0), (0.5, 3.0), (-3.0, -1.5), (1.0, 1.5), (-2.0, 
 def lattice2d():
     for x, y, xr, yr, tol in itertools.product(HALF, HALF, RANGES, RANGES, [0, 0.5, 1.0]):
         yield {"p": [x, y], "b": [[xr[0], yr[0]], [xr[1], yr[1]]], "tol": tol, "tags": ["lattice"]}
+    for x, y, xr, yr, xr2, yr2 in itertools.product([-3.0, 0.0, 2.5], [-2.0, 0.5, 3.0], RANGES[:3], RANGES[3:], RANGES[1:4],
+                                                    RANGES[:3]):
+        yield {"p": [x, y], "b": [[xr[0], yr[0]], [xr[1], yr[1]]], "tol": 0.5, "tags": ["lattice", "pib_bounds_object_reused"],
+               "then": {"p": [x, y], "b": [[xr2[0], yr2[0]], [xr2[1], yr2[1]]]}}
 
 
 def run(ctx):
